@@ -1,7 +1,7 @@
 use std::{
     collections::HashMap,
     fs::{self, File, OpenOptions},
-    io::{self, BufRead, BufReader, BufWriter, Write},
+    io::{self, BufRead, BufReader, BufWriter, Read, Seek, SeekFrom, Write},
     path::{Path, PathBuf},
     sync::Mutex,
 };
@@ -60,6 +60,41 @@ impl EventLog {
             events.push(event);
         }
         Ok(events)
+    }
+
+    /// Highest `seq` of the given stream among the frames in the last `max_bytes` of the log
+    /// (`None` when the tail holds no frame of that stream). Lets callers reconcile a cache that
+    /// may be one frame behind after a crash without replaying the whole log.
+    pub fn last_seq_in_tail(
+        &self,
+        stream_kind: StreamKind,
+        stream_id: &str,
+        max_bytes: u64,
+    ) -> io::Result<Option<u64>> {
+        let mut file = File::open(&self.path)?;
+        let len = file.metadata()?.len();
+        let start = len.saturating_sub(max_bytes);
+        file.seek(SeekFrom::Start(start))?;
+        let mut bytes = Vec::new();
+        file.read_to_end(&mut bytes)?;
+        let mut lines = bytes.split(|byte| *byte == b'\n');
+        if start > 0 {
+            // The window starts inside a line.
+            let _ = lines.next();
+        }
+        let mut last: Option<u64> = None;
+        for line in lines {
+            if line.is_empty() {
+                continue;
+            }
+            let Ok(event) = serde_json::from_slice::<Event>(line) else {
+                continue;
+            };
+            if event.stream_kind() == stream_kind && event.stream_id() == stream_id {
+                last = Some(last.map_or(event.seq, |seq| seq.max(event.seq)));
+            }
+        }
+        Ok(last)
     }
 
     pub fn replay_validated(&self) -> io::Result<Vec<Event>> {
